@@ -28,9 +28,9 @@ sys.exit(1 if miss else 0)
 PY
 T=$?; rm -f /tmp/confirm.$$.json
 cp "$DEMO" "$PKG/zz_seed_demo_test.go"
-go test -vet=off -count=1 -run "$RE" "./$PKG" > /tmp/confirm.$$.with 2>&1; W=$?
+go test ${GOTESTFLAGS:-} -vet=off -count=1 -run "$RE" "./$PKG" > /tmp/confirm.$$.with 2>&1; W=$?
 git apply -R "$PATCH"
-go test -vet=off -count=1 -run "$RE" "./$PKG" > /tmp/confirm.$$.without 2>&1; WO=$?
+go test ${GOTESTFLAGS:-} -vet=off -count=1 -run "$RE" "./$PKG" > /tmp/confirm.$$.without 2>&1; WO=$?
 rm -f "$PKG/zz_seed_demo_test.go"
 git apply "$PATCH"
 echo "suite-ok=$T demo-with-change-exit=$W (want !=0) demo-without-change-exit=$WO (want 0)"
